@@ -68,6 +68,18 @@ func Havoc[T any](name string) T {
 }
 func havocHook(name string)
 
+// LazyMap returns a map over the key universe `keys` whose entries are decided lazily: gen(k) is called the first time the
+// code under test can observe key k (a lookup of that key, or any range/len/lookup with a symbolic key) and says whether
+// k is present and with which value. Keys outside the universe are absent.
+func LazyMap[K comparable, V any](keys []K, gen func(K) (V, bool)) map[K]V {
+	lazyMapHook()
+	return nil
+}
+func lazyMapHook()
+
+// Resolved reports whether the dynamic type of a havoced interface value has been looked at (and thereby fixed) yet.
+func Resolved(x any) bool
+
 // HavocInto stores an arbitrary value of the pointee type through ptr (what a decoder leaves behind).
 func HavocInto(ptr any, name string)
 
